@@ -112,6 +112,24 @@ CLAIMED["C16"] = (
     "complex layouts) compared with exact rational Butterworth gains and output shapes / identity for 105+ shapes x 3 cutoffs "
     "inside Coq. Linearity, mean, gain per component, ft-vs-real, numpy/backend/pipe/Model.pre_transform agreement: numeric oracle.",
     "regenerated anchors + Coq theorems (lia/lra) + in-Coq correspondence")
+CLAIMED["C07"] = (
+    "Theorems (Coq, Reals): Cauchy-Schwarz for finite sums; NCC in [-1,1]; ZNCC = Pearson = NCC of the centred images, in [-1,1], "
+    "= 1 on identical non-constant inputs, invariant under positive gain (also under a mask) and under an offset (unmasked); the "
+    "window-normalised landscape formula at the zero-lag window collapses to the score for centred inputs. Executable twin over Z "
+    "(squared form, no sqrt). Tie: structural anchors for backend.ncc/zncc, score masking, response formula, landscape centring, "
+    "fsc; ZNCC/NCC scores through Alignment.score, backend functions, landscape centre and zero-range align on integer images "
+    "with none/binary/soft masks compared with the exact rational correlation inside Coq. Cutoff / tilt / generic orientation, "
+    "range, invariances, FSC score = landscape centre, landscape arg-max vs align for all four models: numeric oracle.",
+    "Coq theorems over R (Cauchy-Schwarz) + exact integer twin + in-Coq correspondence")
+CLAIMED["C17"] = (
+    "Theorems (Coq): per-shell FSC is the normalised correlation of the stacked (re,im) vectors = Re sum F1 conj F2 / sqrt(sum|F1|^2 "
+    "sum|F2|^2); hence in [-1,1], symmetric, invariant under positive rescaling of either input, 1 on identical non-empty shells "
+    "(Reals); shell label characterised without sqrt (L^2 df^2 <= r^2 < (L+1)^2 df^2), every bin in exactly one shell, frequency "
+    "axis (i+1/2) df, loader default df = 1.5/min(shape) (Z/Q). Tie: freq-axis and default-dfreq expressions regenerated, structural "
+    "anchor for fourier_shell_correlation; numpy DFT bins (kernel) fed to Coq which redoes labelling, per-shell sums, number of "
+    "shells and the quotient (squared form) and compares with the implementation. Symmetry/scale/self/independent per-shell "
+    "reference, loader-level FSC of masked half averages and seed reproducibility: oracle.",
+    "Coq theorems over R and Z/Q + in-Coq correspondence on DFT bins")
 NOT_YET = "machinery for this property is not built yet in this revision (see DESIGN.md §6 for the planned model)"
 
 def main():
